@@ -60,6 +60,7 @@ if [ ! -f "$H/ok" ]; then
     $HCXX -std=c++17 -Wall -Wextra -Wno-unused-parameter -I"$VERIF/sim" -I"$REPO/src" -c "$VERIF/sim/$f.cpp" -o "$H/$f.o" & pids+=($!)
   done
   $HCC -Wall -c "$VERIF/sim/wrappers.c" -o "$H/wrappers.o" & pids+=($!)
+  gcc -c "$VERIF/sim/wrappers_asm.S" -o "$H/wrappers_asm.o" & pids+=($!)
   for p in "${pids[@]}"; do wait "$p" || { echo "build.sh: harness compile failed" >&2; exit 2; }; done
   touch "$H/ok"
 fi
